@@ -31,6 +31,8 @@
                                                            Encrypt/Decrypt in place, 2/3 into buf2[doff:doff+n]
             (9 name key iv seed1 len1 ((k off n spare) ...))   the same in place with a factory-made cipher
             (10 name key iv seed nmsgs)                    one instance, Encrypt and Decrypt on two goroutines
+            (11 ctor key iv seed len)                      an exported constructor called directly (aes, 3des, sm4,
+                                                           twofish, xtea, salsa20, none); observed as for 5
    observed = (panicked (out ...))        for 0
               (keystream enc dec)         for 1   (dec = Decrypt(enc) on a second instance)
               (enc dec)                   for 2
@@ -38,7 +40,7 @@
                                                        crypto/cipher CFB with the first IV block /
                                                        salsa20.XORKeyStream / identity; an oracle table)
               (panicked out)              for 4
-              (ctor_panicked run_panicked enc dec ((cipher n ref) ...))   for 5
+              (ctor_panicked run_panicked enc dec ((cipher n ref) ...) accessor_panicked Key() IV())   for 5, 11
               (panickedA encA panickedB encB)                             for 6
               (((ctor_panicked run_panicked enc dec) ...) ((cipher n ref) ...))   for 7
               (panicked (written_buffer_after_op ...) final_buf1 final_buf2)      for 8
@@ -160,9 +162,9 @@ Fixpoint table_find (c : Z) (n : nat) (t : list sx) : option (list N) :=
    model selects keyed with the model's used_key and iv[:bs] (the interoperability sentence):
    a difference is a property failure (1); a missing table entry or a different panic outcome
    is a model / code mismatch (10, 11, 12). *)
-Definition check_slicing (name key iv : list N) (m : list N) (cp rp : Z) (enc dec : list N) (t : list sx)
+Definition check_inst (oi : option inst) (m : list N) (cp rp : Z) (enc dec : list N) (t : list sx)
   : verdict :=
-  match new_crypt name key iv with
+  match oi with
   | None => check_that (Z.eqb cp 1) (VMismatch 10)
   | Some i =>
       (* the model accepts key and iv: a panic of the code is a property failure (7) *)
@@ -188,6 +190,17 @@ Definition check_slicing (name key iv : list N) (m : list N) (cp rp : Z) (enc de
       end
   end.
 
+Definition check_slicing (name key iv : list N) (m : list N) (cp rp : Z) (enc dec : list N) (t : list sx)
+  : verdict := check_inst (new_crypt name key iv) m cp rp enc dec t.
+
+(* the accessors Key() and IV() of an instance the code did make *)
+Definition check_acc (oi : option inst) (cp accp : Z) (k v : list N) : verdict :=
+  match oi with
+  | Some i => if Z.eqb cp 1 then VOk
+              else check_that (Z.eqb accp 0 && nlist_eqb k (acc_key i) && nlist_eqb v (acc_iv i)) (VMismatch 15)
+  | None => VOk
+  end.
+
 (* do the two instances use the same key bytes and the same iv bytes, according to the model? *)
 Definition same_used (a b : inst) : bool :=
   match a, b with
@@ -204,8 +217,10 @@ Definition runs (i : inst) : bool :=
 Fixpoint check_family (key iv m : list N) (t : list sx) (entries results : list sx) : verdict :=
   match entries, results with
   | [], [] => VOk
-  | SList [SBytes name; SInt kl] :: entries', SList [SInt cp; SInt rp; SBytes enc; SBytes dec] :: results' =>
-      vjoin (check_slicing name (firstn (Z.to_nat kl) key) iv m cp rp enc dec t)
+  | SList [SBytes name; SInt kl] :: entries', SList [SInt cp; SInt rp; SBytes enc; SBytes dec; SBytes enc2] :: results' =>
+      (* enc2: the same message encrypted again after all the other instances were used *)
+      vjoin (vjoin (check_slicing name (firstn (Z.to_nat kl) key) iv m cp rp enc dec t)
+                   (check_slicing name (firstn (Z.to_nat kl) key) iv m cp rp enc2 dec t))
             (check_family key iv m t entries' results')
   | _, _ => VBad
   end.
@@ -309,8 +324,13 @@ Definition check (c : sx) : verdict :=
       | Some m => check_that (Z.eqb panicked 0 && nlist_eqb m out) (VMismatch 9)
       end
   | SList [SList [SInt 5%Z; SBytes name; SBytes key; SBytes iv; SInt seed; SInt len];
-           SList [SInt cp; SInt rp; SBytes enc; SBytes dec; SList t]] =>
-      check_slicing name key iv (lcg seed len) cp rp enc dec t
+           SList [SInt cp; SInt rp; SBytes enc; SBytes dec; SList t; SInt accp; SBytes ka; SBytes va]] =>
+      vjoin (check_slicing name key iv (lcg seed len) cp rp enc dec t)
+            (check_acc (new_crypt name key iv) cp accp ka va)
+  | SList [SList [SInt 11%Z; SBytes ctor; SBytes key; SBytes iv; SInt seed; SInt len];
+           SList [SInt cp; SInt rp; SBytes enc; SBytes dec; SList t; SInt accp; SBytes ka; SBytes va]] =>
+      vjoin (check_inst (new_direct ctor key iv) (lcg seed len) cp rp enc dec t)
+            (check_acc (new_direct ctor key iv) cp accp ka va)
   | SList [SList [SInt 6%Z; SBytes name; SBytes keyA; SBytes ivA; SBytes keyB; SBytes ivB; SInt seed; SInt len];
            SList [SInt pA; SBytes encA; SInt pB; SBytes encB]] =>
       match new_crypt name keyA ivA, new_crypt name keyB ivB with
